@@ -27,6 +27,26 @@ Proof.
   - cbn [find]. destruct (a_key b =? k'); [reflexivity|exact IH].
 Qed.
 
+Lemma find_upd_same' k f l :
+  (forall a, a_key a = k -> a_key (f a) = k) -> find k (upd k f l) = option_map f (find k l).
+Proof.
+  intros Hf. induction l as [|b r IH]; cbn [find upd option_map]; [reflexivity|].
+  destruct (a_key b =? k) eqn:E.
+  - cbn [find]. apply Z.eqb_eq in E. rewrite (Hf b E). now rewrite Z.eqb_refl.
+  - cbn [find]. now rewrite E.
+Qed.
+
+Lemma find_upd_other' k k' f l :
+  k' <> k -> (forall a, a_key a = k -> a_key (f a) = k) -> find k' (upd k f l) = find k' l.
+Proof.
+  intros Hn Hf. induction l as [|b r IH]; cbn [find upd]; [reflexivity|].
+  destruct (a_key b =? k) eqn:E.
+  - cbn [find]. apply Z.eqb_eq in E. rewrite (Hf b E).
+    destruct (k =? k') eqn:E1; [apply Z.eqb_eq in E1; congruence|].
+    destruct (a_key b =? k') eqn:E'; [apply Z.eqb_eq in E'; congruence|reflexivity].
+  - cbn [find]. destruct (a_key b =? k'); [reflexivity|exact IH].
+Qed.
+
 Lemma upd_none k f l : find k l = None -> upd k f l = l.
 Proof.
   induction l as [|b r IH]; cbn [find upd]; [reflexivity|].
